@@ -73,7 +73,10 @@ func newC07Env(ruleset string, cache uint) *c07Env {
 	qf := &c07Cert{name: "QC(v7,two-signers)", view: 7, qc: &qfv}
 	qrv := hotstuff.NewQuorumCert(q1v.Signature(), 5, b1.Hash())
 	qr := &c07Cert{name: "QC(v1-relabelled-v5)", view: 5, qc: &qrv}
-	qcs := []*c07Cert{nil, q1, q3, qf, qr}
+	// the genesis block needs no signatures, but only as the certificate of view 0
+	qgv := hotstuff.NewQuorumCert(nil, 9, hotstuff.GetGenesis().Hash())
+	qg := &c07Cert{name: "QC(genesis-relabelled-v9)", view: 9, qc: &qgv}
+	qcs := []*c07Cert{nil, q1, q3, qf, qr, qg}
 	// --- TCs
 	mkTC := func(v hotstuff.View, label hotstuff.View, idx ...int) hotstuff.TimeoutCert {
 		return hotstuff.NewTimeoutCert(c.Combine(c.SignBytes(v.ToBytes(), idx...)...), label)
@@ -153,6 +156,7 @@ func newC07Env(ruleset string, cache uint) *c07Env {
 	prop("propose(v4, QC(v3))", b3, q3, nil, 4)
 	prop("propose(v8, QC(v7,two-signers))", bx, qf, nil, 8)
 	prop("propose(v6, QC(v1-relabelled-v5))", b1, qr, nil, 6)
+	prop("propose(v10, QC(genesis-relabelled-v9))", g, qg, nil, 10)
 	if agg {
 		prop("propose(v3, QC(v1), AggQC(v2))", b1, q1, aggs[1], 3)
 		prop("propose(v11, QC(v1), AggQC(v10,two-signers))", b1, q1, aggs[2], 11)
